@@ -297,8 +297,11 @@ impl Prop for C09T {
         }
         // responses: what the queue returned must be what was answered
         if !too_big && !lost_write {
+            // compared line by line, empty lines dropped: a stray newline written for a
+            // *rejected* query is C04's subject, which entry is answered is this one's
+            let lines = |b: &[u8]| -> Vec<Vec<u8>> { b.split(|c| *c == b'\n').filter(|l| !l.is_empty()).map(|l| l.to_vec()).collect() };
             let got = o.responses();
-            if got != want_resp {
+            if lines(&got) != lines(&want_resp) {
                 return v("response", format!("answers [{}] differ from what the queue operations returned [{}]\n    {}", crate::scenario::show(&got), crate::scenario::show(&want_resp), brief(&o)));
             }
             st.bump("reach:responses_judged");
